@@ -45,7 +45,7 @@ def _feat(cfg, avoid=()):
 
 PROFILE = {
     "feat": _feat,
-    "edits": ["var", "ver", "lit", "comment"],
+    "edits": ["var", "ver", "lit", "rtx", "comment"],
     "n": (2, 7),
     "p_restart": 0.5,
     "stores": ("local", "memory", "local+cache"),
